@@ -8,11 +8,13 @@
 -/
 import PacketVerif.Gen.LoopsOpts
 import PacketVerif.Model.Dhcp4Opt
+import PacketVerif.Model.Ndp
 import PacketVerif.Lemmas.LoopGoOpts
 import PacketVerif.Lemmas.Dhcp4OptPerm
 namespace PV.Props.C08OptTie
 open PV PV.Model.LoopGo PV.Model.LoopGoOpts PV.Gen.LoopsOpts PV.Lemmas.LoopGoOpts PV.Lemmas.LoopGo
 open PV.Model.Dhcp4Opt PV.Lemmas.Dhcp4OptPerm
+open PV.Model
 
 /-! ### DHCPv4 -/
 
@@ -108,7 +110,7 @@ theorem parseLoop_eq (c : UInt8) : ∀ (fuel : Nat) (opts : Bytes) (g : GMap) (a
           by_cases hs : opts.length < 2 + b.toNat
           · simp [e255, e0, hsz.mpr hs, hs, hg]
           · have hs' : ¬ (opts.length : Int) < 2 + (b.toNat : Int) := fun x => hs (hsz.mp x)
-            simp only [e255, e0, ea, eb, hs, hs', omap_bind, decide_true, decide_false, ne_eq, not_false_eq_true, if_true,
+            simp only [e255, e0, ea, eb, hs, hs', omap_bind, decide_true, ne_eq, not_false_eq_true, if_true,
               if_false, Bool.false_eq_true]
             refine bind_congr' _ _ _ (fun v => bind_congr' _ _ _ (fun r => ?_))
             apply ih
@@ -137,5 +139,331 @@ theorem parseOptions_same_keys (p : Bytes) (g : GMap) (o : Opts) (hg : genDHCP4_
   rw [hg, ho] at this
   simp only [omap_ok, Outcome.ok.injEq] at this
   rw [this]
+
+/-! ### NDP options -/
+
+theorem copyI_fresh (x : Bytes) :
+    copyI (List.replicate x.length 0) 0 (x.length : Int) x = .ok (x, (x.length : Int)) := by
+  unfold copyI
+  simp
+
+theorem genCopyMAC_eq (x : Bytes) : genCopyMAC x = .ok x := by
+  unfold genCopyMAC makeBytes
+  simp [copyI_fresh]
+
+theorem be32I_toNat (s : Bytes) : omap UInt32.toNat (be32I s) = Ndp.u32be s := by
+  unfold be32I Ndp.u32be
+  match s with
+  | [] => rfl
+  | [_] => rfl
+  | [_, _] => rfl
+  | [_, _, _] => rfl
+  | a :: b :: c :: d :: _ =>
+    simp only [omap_ok, Outcome.ok.injEq, be32]
+    have := a.toNat_lt; have := b.toNat_lt; have := c.toNat_lt; have := d.toNat_lt
+    simp
+    omega
+
+theorem genCopyBytes_eq (x : Bytes) : genCopyBytes x = .ok x := by
+  unfold genCopyBytes makeBytes
+  simp [copyI_fresh]
+
+theorem genCopyIP_eq (x : Bytes) : genCopyIP x = .ok (if x.length = 4 then ipTo16 x else x) := by
+  unfold genCopyIP makeBytes
+  by_cases h : x.length = 4
+  · have : (x.length : Int) = 4 := by omega
+    simp [h, this]
+  · have : ¬ (x.length : Int) = 4 := by omega
+    simp [h, this, copyI_fresh]
+
+def gLLA (a : Ndp.LLA) : G_LinkLayerAddress := { Direction := a.dir, MAC := a.mac }
+
+theorem lla_tie (lla : G_LinkLayerAddress) (b : Bytes) :
+    genLinkLayerAddress_unmarshal lla b = omap gLLA (Ndp.llaUnmarshal b) := by
+  unfold genLinkLayerAddress_unmarshal Ndp.llaUnmarshal
+  simp only [idxI_zero, idxI_one]
+  cases h0 : idx b 0 with
+  | ok t =>
+    cases h1 : idx b 1 with
+    | ok l =>
+      simp only [Outcome.bind_ok, h1]
+      by_cases hl : l = 1
+      · subst hl
+        simp only [ne_eq, not_true_eq_false, if_false]
+        have hd : ((t.toNat : Int) ≠ 1 ∧ (t.toNat : Int) ≠ 2) ↔ (t ≠ 1 ∧ t ≠ 2) := by
+          have := t.toNat_lt
+          constructor
+          · intro ⟨a, b⟩; exact ⟨fun h => a (by simp [h]), fun h => b (by simp [h])⟩
+          · intro ⟨a, b⟩
+            refine ⟨fun h => a ?_, fun h => b ?_⟩
+            · apply UInt8.toNat_inj.mp; simp; omega
+            · apply UInt8.toNat_inj.mp; simp; omega
+        by_cases ht : t ≠ 1 ∧ t ≠ 2
+        · simp [hd.mpr ht, ht]
+        · have : ¬ ((t.toNat : Int) ≠ 1 ∧ (t.toNat : Int) ≠ 2) := fun h => ht (hd.mp h)
+          simp only [this, ht, if_false]
+          rw [sliceI_from2]
+          cases sliceFrom b 2 <;> simp [genCopyMAC_eq, gLLA]
+      · simp [hl]
+    | err e => simp
+    | panic => simp
+    | hang => simp
+  | err e => simp
+  | panic => simp
+  | hang => simp
+
+theorem mtu_tie (m : UInt32) (b : Bytes) : omap UInt32.toNat (genMTU_unmarshal m b) = Ndp.mtuUnmarshal b := by
+  unfold genMTU_unmarshal Ndp.mtuUnmarshal
+  simp only [idxI_one]
+  cases h1 : idx b 1 with
+  | ok l =>
+    simp only [Outcome.bind_ok]
+    by_cases hl : ((l.toNat : Int) * 8 - 2) ≠ 6
+    · simp [hl]
+    · have e : sliceI b 4 8 = slice b 4 8 := by
+        have := sliceI_nat b 4 8
+        simpa using this
+      simp only [hl, if_false, e]
+      cases slice b 4 8 with
+      | ok s => simp only [Outcome.bind_ok, ← be32I_toNat]; cases be32I s <;> rfl
+      | err e => rfl
+      | panic => rfl
+      | hang => rfl
+  | err e => simp
+  | panic => simp
+  | hang => simp
+
+theorem checkPref_eq (n : Nat) (h : n < 4) :
+    gencheckPreference (n : Int) = if n = 2 then .err .other else .ok () := by
+  unfold gencheckPreference
+  match n, h with
+  | 0, _ => simp
+  | 1, _ => simp
+  | 2, _ => simp
+  | 3, _ => simp
+
+theorem pref_lt (f : UInt8) : ((f &&& 24) >>> 3).toNat < 4 := by
+  have h : f.toNat &&& 24 ≤ 24 := Nat.and_le_right
+  rw [UInt8.toNat_shiftRight, UInt8.toNat_and]
+  simp [Nat.shiftRight_eq_div_pow]
+  omega
+
+def gRI (r : Ndp.RouteInfo) : G_RouteInformation :=
+  { PrefixLength := UInt8.ofNat r.plen, Preference := r.pref, RouteLifetime := (r.lifetime : Int) * 1000000000, Prefix := r.pfx }
+
+/-- the part of `(*RouteInformation).unmarshal` after the length `switch` (the translator places it after each case) -/
+theorem ri_tail (ri : G_RouteInformation) (b : Bytes) (pl : UInt8) :
+    (do
+      let ri : G_RouteInformation := { ri with PrefixLength := pl }
+      let t3 ← sliceI b (4 : Int) (8 : Int)
+      let t4 ← be32I t3
+      let ri : G_RouteInformation := { ri with RouteLifetime := ((t4.toNat : Int) * (1000000000 : Int)) }
+      let t5 ← idxI b (3 : Int)
+      let ri : G_RouteInformation := { ri with Preference := (((t5 &&& (24 : UInt8)) >>> (3 : UInt8)).toNat : Int) }
+      let _ ← gencheckPreference ri.Preference
+      let t6 ← sliceI b (8 : Int) (((8 : UInt8) + (pl / (8 : UInt8))).toNat : Int)
+      let t7 ← genCopyBytes t6
+      let ri : G_RouteInformation := { ri with Prefix := t7 }
+      pure ri)
+    = omap gRI (do
+      let lt ← (slice b 4 8) >>= Ndp.u32be
+      let f ← idx b 3
+      let pr := ((f &&& 0x18) >>> 3).toNat
+      if pr = 2 then .err .other
+      else do
+        let p ← slice b 8 (8 + pl.toNat / 8)
+        pure ({ plen := pl.toNat, pref := pr, lifetime := lt, pfx := p } : Ndp.RouteInfo)) := by
+  have e48 : sliceI b 4 8 = slice b 4 8 := by
+    have := sliceI_nat b 4 8
+    simpa using this
+  have e3 : idxI b 3 = idx b 3 := by simp [idxI]
+  have e8 : sliceI b 8 (((8 : UInt8) + pl / 8).toNat : Int) = slice b 8 (8 + pl.toNat / 8) := by
+    have h : ((8 : UInt8) + pl / 8).toNat = 8 + pl.toNat / 8 := by
+      have := pl.toNat_lt
+      rw [UInt8.toNat_add, UInt8.toNat_div]; simp; omega
+    rw [h]
+    have := sliceI_nat b 8 (8 + pl.toNat / 8)
+    simpa using this
+  simp only [e48, e3, e8]
+  cases hs : slice b 4 8 with
+  | ok s =>
+    simp only [Outcome.bind_ok]
+    rw [← be32I_toNat]
+    cases hb : be32I s with
+    | ok v =>
+      simp only [Outcome.bind_ok, omap_ok]
+      cases hf : idx b 3 with
+      | ok f =>
+        simp only [Outcome.bind_ok, checkPref_eq _ (pref_lt f)]
+        by_cases h2 : ((f &&& 24) >>> 3).toNat = 2
+        · simp [h2]
+        · simp only [h2, if_false, Outcome.bind_ok]
+          cases slice b 8 (8 + pl.toNat / 8) with
+          | ok p => simp [genCopyBytes_eq, gRI]
+          | err e => rfl
+          | panic => rfl
+          | hang => rfl
+      | err e => rfl
+      | panic => rfl
+      | hang => rfl
+    | err e => rfl
+    | panic => rfl
+    | hang => rfl
+  | err e => rfl
+  | panic => rfl
+  | hang => rfl
+
+/-- the length `switch` of `(*RouteInformation).unmarshal` as the translator renders it = the model's `riLenOk` -/
+theorem ri_switch {α} (l pl : UInt8) (E X : Outcome α) :
+    (if pl = 0 then (if l < 1 ∨ l > 3 then E else X)
+     else if pl > 0 ∧ pl < 65 then (if l ≠ 2 ∧ l ≠ 3 then E else X)
+     else if pl > 64 ∧ pl < 129 then (if l ≠ 3 then E else X) else E)
+    = if Ndp.riLenOk l.toNat pl.toNat = false then E else X := by
+  simp only [UInt8.lt_iff_toNat_lt, ← UInt8.toNat_inj, gt_iff_lt, ne_eq, UInt8.reduceToNat]
+  by_cases p0 : pl.toNat = 0
+  · rw [if_pos p0]
+    by_cases hc : l.toNat < 1 ∨ 3 < l.toNat
+    · have hv : Ndp.riLenOk l.toNat pl.toNat = false := by simp [Ndp.riLenOk, p0]; omega
+      rw [if_pos hc, hv]; rfl
+    · have hv : Ndp.riLenOk l.toNat pl.toNat = true := by simp [Ndp.riLenOk, p0]; omega
+      rw [if_neg hc, hv]; rfl
+  · rw [if_neg p0]
+    by_cases p1 : pl.toNat < 65
+    · rw [if_pos (show 0 < pl.toNat ∧ pl.toNat < 65 by omega)]
+      by_cases hc : ¬ l.toNat = 2 ∧ ¬ l.toNat = 3
+      · have hv : Ndp.riLenOk l.toNat pl.toNat = false := by simp [Ndp.riLenOk, p0, p1]; omega
+        rw [if_pos hc, hv]; rfl
+      · have hv : Ndp.riLenOk l.toNat pl.toNat = true := by simp [Ndp.riLenOk, p0, p1]; omega
+        rw [if_neg hc, hv]; rfl
+    · rw [if_neg (show ¬ (0 < pl.toNat ∧ pl.toNat < 65) by omega)]
+      by_cases p2 : pl.toNat < 129
+      · rw [if_pos (show 64 < pl.toNat ∧ pl.toNat < 129 by omega)]
+        by_cases hc : ¬ l.toNat = 3
+        · have hv : Ndp.riLenOk l.toNat pl.toNat = false := by simp [Ndp.riLenOk, p0, p1, p2]; omega
+          rw [if_pos hc, hv]; rfl
+        · have hv : Ndp.riLenOk l.toNat pl.toNat = true := by simp [Ndp.riLenOk, p0, p1, p2]; omega
+          rw [if_neg hc, hv]; rfl
+      · have hv : Ndp.riLenOk l.toNat pl.toNat = false := by simp [Ndp.riLenOk, p0, p1, p2]
+        rw [if_neg (show ¬ (64 < pl.toNat ∧ pl.toNat < 129) by omega), hv]; rfl
+
+theorem ri_tie (ri : G_RouteInformation) (b : Bytes) :
+    genRouteInformation_unmarshal ri b = omap gRI (Ndp.riUnmarshal b) := by
+  unfold genRouteInformation_unmarshal Ndp.riUnmarshal
+  simp only [idxI_one, show idxI b 2 = idx b 2 by simp [idxI]]
+  cases h1 : idx b 1 with
+  | ok l =>
+    cases h2 : idx b 2 with
+    | ok pl =>
+      have rt := ri_tail ri b pl
+      dsimp only at rt
+      simp only [Outcome.bind_ok]
+      simp only [rt]
+      rw [ri_switch]
+      by_cases hok : Ndp.riLenOk l.toNat pl.toNat = false
+      · rw [if_pos hok, if_pos hok]; rfl
+      · rw [if_neg hok, if_neg hok]
+    | err e => simp
+    | panic => simp
+    | hang => simp
+  | err e => simp
+  | panic => simp
+  | hang => simp
+
+def gRdnss (old : G_RecursiveDNSServer) (m : Ndp.Rdnss) : G_RecursiveDNSServer :=
+  { Lifetime := (m.lifetime : Int) * 1000000000, Servers := old.Servers ++ m.servers }
+
+theorem slice_len (v : Bytes) (lo hi : Nat) (s : Bytes) (h : slice v lo hi = .ok s) : s.length = hi - lo := by
+  unfold slice at h
+  split at h
+  · rename_i hc
+    simp only [Outcome.ok.injEq] at h
+    subst h
+    simp; omega
+  · simp at h
+
+/-- the server loop of `(*RecursiveDNSServer).unmarshal`: `n` more servers from index `i` on -/
+theorem rdnss_loop (value : Bytes) : ∀ (n i fuel : Nat) (r : G_RecursiveDNSServer), n < fuel →
+    genRecursiveDNSServer_unmarshal_loop1 value ((i + n : Nat) : Int) fuel r (i : Int)
+      = omap (fun srv => { r with Servers := r.Servers ++ srv }) (Ndp.rdnssServers value n i) := by
+  intro n
+  induction n with
+  | zero =>
+    intro i fuel r hf
+    obtain ⟨f, rfl⟩ : ∃ f, fuel = f + 1 := ⟨fuel - 1, by omega⟩
+    simp [genRecursiveDNSServer_unmarshal_loop1, Ndp.rdnssServers]
+  | succ n ih =>
+    intro i fuel r hf
+    obtain ⟨f, rfl⟩ : ∃ f, fuel = f + 1 := ⟨fuel - 1, by omega⟩
+    unfold genRecursiveDNSServer_unmarshal_loop1 Ndp.rdnssServers
+    have hlt : (i : Int) < ((i + (n + 1) : Nat) : Int) := by omega
+    have hs : sliceI value ((6 : Int) + (i : Int) * 16) ((22 : Int) + (i : Int) * 16) = slice value (6 + 16 * i) (6 + 16 + 16 * i) := by
+      rw [← sliceI_nat]; congr 1 <;> omega
+    simp only [hlt, if_true, hs]
+    cases hv : slice value (6 + 16 * i) (6 + 16 + 16 * i) with
+    | ok s =>
+      have hl := slice_len _ _ _ _ hv
+      have h16 : ¬ s.length = 4 := by omega
+      simp only [Outcome.bind_ok, genCopyIP_eq, h16, if_false]
+      have := ih (i + 1) f { r with Servers := r.Servers ++ [s] } (by omega)
+      have e1 : ((i + 1 + n : Nat) : Int) = ((i + (n + 1) : Nat) : Int) := by omega
+      have e2 : ((i + 1 : Nat) : Int) = (i : Int) + 1 := by omega
+      rw [e1, e2] at this
+      rw [this]
+      cases Ndp.rdnssServers value n (i + 1) <;> simp
+    | err e => rfl
+    | panic => rfl
+    | hang => rfl
+
+theorem rdnss_tie (r : G_RecursiveDNSServer) (b : Bytes) :
+    genRecursiveDNSServer_unmarshal r b = omap (gRdnss r) (Ndp.rdnssUnmarshal b) := by
+  unfold genRecursiveDNSServer_unmarshal Ndp.rdnssUnmarshal
+  rw [sliceI_from2]
+  cases hv : sliceFrom b 2 with
+  | ok value =>
+    have e26 : sliceI value 2 6 = slice value 2 6 := by
+      have := sliceI_nat value 2 6
+      simpa using this
+    simp only [Outcome.bind_ok, e26, idxI_one]
+    cases hs : slice value 2 6 with
+    | ok s =>
+      simp only [Outcome.bind_ok]
+      rw [← be32I_toNat]
+      cases hb : be32I s with
+      | ok v =>
+        simp only [Outcome.bind_ok, omap_ok]
+        cases h1 : idx b 1 with
+        | ok l1 =>
+          simp only [Outcome.bind_ok]
+          have hm : Int.tmod (((l1.toNat : Int) - 1) * 8) 2 = 0 := by
+            have : ((l1.toNat : Int) - 1) * 8 = 2 * (((l1.toNat : Int) - 1) * 4) := by omega
+            rw [this]; exact Int.mul_tmod_right _ _
+          have hm' : (l1.toNat - 1) * 8 % 2 = 0 := by omega
+          have hc : Int.tdiv (((l1.toNat : Int) - 1) * 8) 16 = (((l1.toNat - 1) * 8 / 16 : Nat) : Int) := by
+            by_cases h0 : l1.toNat = 0
+            · simp [h0]
+            · have : ((l1.toNat : Int) - 1) * 8 = (((l1.toNat - 1) * 8 : Nat) : Int) := by omega
+              rw [this, Int.tdiv_eq_ediv_of_nonneg (by omega)]; omega
+          simp only [hm, hm', ne_eq, not_true_eq_false, if_false, hc]
+          by_cases hz : (l1.toNat - 1) * 8 / 16 = 0
+          · simp [hz]
+          · have hz' : ¬ (((l1.toNat - 1) * 8 / 16 : Nat) : Int) = 0 := by omega
+            simp only [hz, hz', if_false]
+            have := rdnss_loop value ((l1.toNat - 1) * 8 / 16) 0 (((((l1.toNat - 1) * 8 / 16 : Nat) : Int) - 0).toNat + 1)
+              { r with Lifetime := (v.toNat : Int) * 1000000000 } (by omega)
+            simp only [Nat.zero_add, Int.natCast_zero] at this
+            rw [this]
+            cases Ndp.rdnssServers value ((l1.toNat - 1) * 8 / 16) 0 <;> simp [gRdnss]
+        | err e => rfl
+        | panic => rfl
+        | hang => rfl
+      | err e => rfl
+      | panic => rfl
+      | hang => rfl
+    | err e => rfl
+    | panic => rfl
+    | hang => rfl
+  | err e => rfl
+  | panic => rfl
+  | hang => rfl
 
 end PV.Props.C08OptTie
